@@ -239,7 +239,7 @@ func (w *W) fmtScalar(v Value, verb byte, sp fmtSpec, t types.Type) Value {
 			case 'q', 'x', 'X':
 				return mkStr(fmt.Sprintf(sp.hostFmt(verb), s))
 			case 'd':
-				return mkStr(fmt.Sprintf("%!d(string=%s)", s))
+				return mkStr("%!d(string=" + s + ")")
 			}
 			return mkStr(fmt.Sprintf(sp.hostFmt(verb), s))
 		}
@@ -272,7 +272,7 @@ func (w *W) fmtScalar(v Value, verb byte, sp fmtSpec, t types.Type) Value {
 			case 'v':
 				return mkStr(fmt.Sprintf(sp.hostFmt('d'), hv))
 			case 's':
-				return mkStr(fmt.Sprintf("%%!s(int=%d)", hv))
+				return mkStr("%!s(int=" + fmt.Sprint(hv) + ")")
 			}
 			return mkStr(fmt.Sprintf(sp.hostFmt(verb), hv))
 		}
